@@ -712,6 +712,32 @@ fn part_many(c: &BCase, mut m: M, mut model: Model, removed: Vec<BKey>) -> Resul
         }
     }
     same(&m, &model, "after writing through get_many_mut")?;
+    // a sparse table of the same size: three keys that start at the last bucket (one there, two wrapped around to the
+    // first buckets, found through the mirrored trailing control bytes of a window that also contains EMPTY bytes)
+    {
+        let mut sp: M = HashMap::with_capacity_and_hasher(c.n, Ident);
+        let e = |j: u64| BKey { id: (1 << 41) + j, h: WPlan::End.hash(5 * j) };
+        let other = BKey { id: (1 << 41) + 9, h: 5 };
+        for k in [e(0), e(1), e(2), other] {
+            sp.insert(k, k.id);
+        }
+        let none = BKey { id: (1 << 41) + 10, h: WPlan::End.hash(0) };
+        let req = [e(1), other, none, e(0), e(2)];
+        let got: [Option<u64>; 5] = sp.get_many_mut([&req[0], &req[1], &req[2], &req[3], &req[4]]).map(|g| g.map(|v| *v));
+        for (x, g) in got.into_iter().enumerate() {
+            let want = if x == 2 { None } else { Some(req[x].id) };
+            if g != want {
+                return Err(format!("sparse table, keys that start at the last bucket: get_many_mut request #{x} ({:?}) gave {:?}, get() gives {:?}", req[x], g, sp.get(&req[x])));
+            }
+        }
+        for k in [e(1), e(2)] {
+            let r = env::catch(|| sp.get_many_mut([&k, &other, &k]).map(|g| g.map(|v| *v)));
+            match r {
+                Err(msg) if msg.contains("duplicate") => {}
+                other => return Err(format!("sparse table: get_many_mut with the wrapped key {:?} requested twice did not panic with 'duplicate keys': {:?}", k, other)),
+            }
+        }
+    }
     // four keys at once, key-value form
     let req = [picks[0], picks[2], picks[4], picks[5]];
     let mut distinct = req.to_vec();
@@ -754,7 +780,7 @@ pub fn cases(tier: Tier, part: Part) -> Vec<BCase> {
     let w = hashbrown::verif::GROUP_WIDTH;
     // 112, 224: tables filled exactly to their capacity (128 and 256 buckets) before the thinning
     let ns: Vec<usize> = if q { vec![112, 130, 40 * w] } else { vec![112, 113, 130, 224, 225, 449, 40 * w, 1000] };
-    let plans = [WPlan::Zero, WPlan::Seq, WPlan::Stride, WPlan::Mix, WPlan::Four];
+    let plans = [WPlan::Zero, WPlan::Seq, WPlan::Stride, WPlan::Mix, WPlan::Four, WPlan::End];
     let thins = [Thin::None, Thin::EverySecond, Thin::FirstHalf, Thin::LastHalf, Thin::AllBut3, Thin::Scatter];
     let mut v = Vec::new();
     for &n in &ns {
